@@ -3,9 +3,10 @@
 import json, os
 ROOT = os.path.dirname(os.path.dirname(os.path.abspath(__file__)))
 
-SESSION_NOTE = ("Trusted: Coq kernel, extraction+driver and harness for the correspondence. Model M2 assumes whole-packet never-blocking I/O "
-                "(discharged by C05/C06) and a protocol-conforming broker (Model.conforming); callbacks on_publish/on_connect do not raise; "
-                "API calls nested in callbacks are C18's subject.")
+SESSION_NOTE = ("Trusted: Coq kernel, extraction+driver and harness for the correspondence. Two session models: M2 (Session/) assumes whole-packet "
+                "never-blocking I/O; M2' (Session2/) adds the client's output queue, a transport that may refuse writes, and reconnect() dropping the queue "
+                "(events distinguish handed-over from written packets); both assume a protocol-conforming broker (Model.conforming: acknowledgements only for "
+                "written packets), callbacks on_publish/on_connect that do not raise, and top-level (not nested) API calls; partial writes are C06's subject.")
 SESSION_TECH = "Coq proof: relational invariant between an executable session model and a trace checker, by induction over all operation histories; model validated by differential execution against the real client"
 
 CLAIMED = {
